@@ -15,7 +15,9 @@ EXPLANATION = (
     'parsed feature (features); __xor__ is __eq__ minus the feature, recursing with ^ and comparing the slash; '
     'clear_features drops exactly the feature on atoms and rebuilds functors with the same slash from the '
     'recursive results.  For classes of this shape these facts are the whole value algebra (equality is an '
-    'equivalence, equal values hash equally, ^ is coarser than ==, erasure is idempotent).')
+    'equivalence, equal values hash equally, ^ is coarser than ==, erasure is idempotent).'
+    ' The names to erase must reach every atom as a re-iterable collection (not a map / filter / generator) when clear_features forwards to per-class methods.'
+)
 TRUSTED = ['CPython ast', 'semantics of dataclasses (frozen, eq, generated __hash__)', 'rule table DESIGN.md C13']
 
 REL = 'depccg/cat.py'
